@@ -19,4 +19,5 @@ from vf import refdata
 refdata.verify()
 print("setup ok: hypothesis", hypothesis.__version__)
 PY
+PYTHONPATH="/repo/src:$HERE:$HERE/.deps" PYTHONHASHSEED=0 "$PY" "$HERE/tools/selftest_reader.py" || exit 1
 mkdir -p "$HERE/evidence" "$HERE/replays/out" "$HERE/.work"
